@@ -18,7 +18,9 @@
    executions that avoid exactly the offending step. *)
 From Coq Require Import List Arith Bool Lia NArith.
 From Tinode Require Import Sys.Lifecycle Sys.LifecycleProofs Sys.LifecycleAttach Sys.LifecycleTerm
-  Sys.LifecycleProgress Sys.LifecycleReply Sys.TopicStatusC14d Sys.LifecycleFailDelC14d.
+  Sys.LifecycleProgress Sys.LifecycleReply Sys.TopicStatusC14d Sys.LifecycleFailDelC14d
+  Sys.RegistryC14f Sys.RegistryC14fProofs.
+From Coq Require Import ZArith.
 Import ListNotations.
 
 (* ================================================================ 1. in-flight balance *)
@@ -380,3 +382,60 @@ Example c14_example_failed_delete_then_leave : exists c,
   s_out (c_sess c 2) = [mkRep (Some 2) CInternal 1; mkRep (Some 4) COk 1] /\
   lookup 1 (s_subs (c_sess c 1)) = None /\ i_sessions (c_inst c 0) = [] /\ c_store c 1 = false.
 Proof. eexists. split; [vm_compute; reflexivity|]. repeat split. Qed.
+
+
+(* ================================================================ round s14f: session registry, online counters *)
+
+(* Model Sys/RegistryC14f.v part A = SessionStore (sessionstore.go): NewSession with the loop that expires stale
+   long-polling sessions, Get (MoveToFront + lastTouched), Delete as called by the closing connection's
+   cleanUp(false), EvictUser; the clock is the `now` argument of the calls and RAge (a session not heard of
+   for d more seconds).  After EVERY history of these calls, with any arguments, for any life time:
+   the registry holds exactly the sessions that were created and have not been terminated (expired by
+   NewSession, evicted, or closed), each once; the LRU list exactly the long-polling ones among them, each once.
+   (SessionStore.Shutdown does not touch the registry - "no need to clean up" - and is not a step.) *)
+Theorem c14_registry_exact : forall life h, reg_exact_c14f (rrun_c14f (init_c14f life) h).
+Proof. exact registry_exact_c14f. Qed.
+Print Assumptions c14_registry_exact.
+
+(* every session NewSession expires is out of the registry, out of the LRU list and terminated; the session it
+   returns is registered (unless the caller's own clock reading makes it stale at birth) *)
+Theorem c14_registry_new_session : forall life h lp uid now st' sid expired,
+  new_session_c14f (rrun_c14f (init_c14f life) h) lp uid now = (st', (sid, expired)) ->
+  (forall x, In x expired -> ~ In x (r_cache st') /\ ~ In x (r_lru st') /\ In x (r_term st')) /\
+  (~ In sid expired -> In sid (r_cache st')).
+Proof. exact new_session_registered_c14f. Qed.
+Print Assumptions c14_registry_new_session.
+
+(* a stale long-polling session is expired by the next connect of ANY kind; the new websocket session stays *)
+Example c14_example_registry_expiry :
+  let st := rrun_c14f (init_c14f 70) [RNew true 1 0%Z; RNew false 2 10%Z; RAge 0 100%Z; RNew false 1 20%Z] in
+  r_cache st = [2; 1]%N /\ r_lru st = [] /\ r_term st = [0]%N.
+Proof. vm_compute. repeat split. Qed.
+
+(* Model part B = the online counters of one loaded topic: attach (addSession + perUser[asUid].online++) and
+   handleLeaveRequest for an ordinary session (explicit {leave}, unsubAll of a closing connection, slow-consumer
+   eviction): the attachment record carries the user the session is attached AS (a root session acting on behalf
+   of somebody: that user, not Session.uid).  After every history, for every user: online = number of sessions
+   attached as that user; hence all zero once every session is gone; a perUser entry exists only for a user with
+   a subscription row at load time or a user somebody attached as. *)
+Theorem c14_online_count_exact : forall members h u,
+  oget (o_per (orun_c14f (oinit_c14f members) h)) u = ocount (o_sess (orun_c14f (oinit_c14f members) h)) u.
+Proof. exact online_counts_c14f. Qed.
+Print Assumptions c14_online_count_exact.
+
+Theorem c14_online_count_restored : forall members h,
+  o_sess (orun_c14f (oinit_c14f members) h) = [] ->
+  forall u, oget (o_per (orun_c14f (oinit_c14f members) h)) u = 0%Z.
+Proof. exact online_restored_c14f. Qed.
+Print Assumptions c14_online_count_restored.
+
+Theorem c14_online_no_phantom_entry : forall t o k,
+  oinv_c14f t -> In k (map fst (o_per (ostep_c14f t o))) ->
+  In k (map fst (o_per t)) \/ (exists s, o = OAttach s k) \/ In k (map snd (o_sess t)).
+Proof. intros t o k _. exact (okeys_step t o k). Qed.
+Print Assumptions c14_online_no_phantom_entry.
+
+(* root session 9 (uid 7) attaches on behalf of user 1 and is dropped: user 1 is back to 0, no entry for 7 *)
+Example c14_example_obo_leave :
+  o_per (orun_c14f (oinit_c14f [1; 2]%N) [OAttach 9 1; OAttach 3 1; OLeave 9 7]) = [(1%N, 1%Z); (2%N, 0%Z)].
+Proof. reflexivity. Qed.
